@@ -130,6 +130,15 @@ func (s *Schema) initialize(db *DB, o Object) (err error) {
 	// initializes the list of tranformers
 	s.transformers = s.Fields.Transformers()
 
+	// the asynchronous writes settings also hold the state of the routine
+	// writing the objects of this schema: they cannot be shared with another
+	// schema (the same Schema value may be used to create several collections)
+	if s.AsyncWrites != nil {
+		aw := *s.AsyncWrites
+		aw.routineStarted = false
+		s.AsyncWrites = &aw
+	}
+
 	// initializes ObjectsIndex if needed
 	if s.ObjectIndex == nil {
 		s.ObjectIndex = newIndex(s.Fields)
